@@ -533,6 +533,30 @@ def setlocal_corpus():
 
 # reset / shift: not part of the reference machine; a few classic programs with the answers the standard semantics of
 # delimited control gives (worked out by hand), as Steel text
+# dynamic-wind whose AFTER thunk raises, escapes or captures a continuation (on normal return of the body): the after
+# thunk runs exactly once per exit and the extent counts as left while it runs (hand-computed traces)
+WIND_PRE = "(define trace '()) (define (note x) (set! trace (cons x trace))) "
+WIND_AFTER = [
+    (WIND_PRE + "(define (t) (let ([r (call/cc (lambda (k0) (with-handler (lambda (e) (note 'caught) (k0 'escaped)) (dynamic-wind (lambda () (note 'before)) "
+     "(lambda () (note 'body) 'b) (lambda () (note 'after) (error \"in-after\"))))))]) (list r (reverse trace)))) (t)",
+     "OK ('\"escaped\" ('\"before\" '\"body\" '\"after\" '\"caught\")) ;; OUT "),
+    (WIND_PRE + "(define (t) (let ([r (call/cc (lambda (k0) (dynamic-wind (lambda () (note 'before)) (lambda () (note 'body)) (lambda () (note 'after) (k0 'out)))))]) "
+     "(list r (reverse trace)))) (t)",
+     "OK ('\"out\" ('\"before\" '\"body\" '\"after\")) ;; OUT "),
+    (WIND_PRE + "(define (t) (let ([kin (box #f)] [count (box 0)]) (dynamic-wind (lambda () (note 'before)) (lambda () (note 'body)) "
+     "(lambda () (call/cc (lambda (k) (set-box! kin k))) (note 'after))) (if (< (unbox count) 1) (begin (set-box! count (+ (unbox count) 1)) ((unbox kin) 'again)) "
+     "(reverse trace)))) (t)",
+     "OK ('\"before\" '\"body\" '\"after\" '\"after\") ;; OUT "),
+    (WIND_PRE + "(define (t) (let ([r (call/cc (lambda (k0) (with-handler (lambda (e) (note 'caught) (k0 'escaped)) (dynamic-wind (lambda () (note 'b1)) "
+     "(lambda () (dynamic-wind (lambda () (note 'b2)) (lambda () (note 'body)) (lambda () (note 'a2) (error \"x\")))) (lambda () (note 'a1))))))]) "
+     "(list r (reverse trace)))) (t)",
+     "OK ('\"escaped\" ('\"b1\" '\"b2\" '\"body\" '\"a2\" '\"a1\" '\"caught\")) ;; OUT "),
+    (WIND_PRE + "(define (t) (let ([r (with-handler (lambda (e) (note 'caught) 'handled) (dynamic-wind (lambda () (note 'before)) (lambda () (note 'body) 'b) "
+     "(lambda () (note 'after) (error \"in-after\"))))]) (let ([r2 (call/cc (lambda (k) (dynamic-wind (lambda () (note 'b2)) (lambda () (k 'out2)) "
+     "(lambda () (note 'a2)))))]) (list r r2 (reverse trace))))) (t)",
+     "OK ('\"handled\" '\"out2\" ('\"before\" '\"body\" '\"after\" '\"caught\" '\"b2\" '\"a2\")) ;; OUT "),
+]
+
 DELIM = [
     ("(define (t) (+ 1 (reset (* 2 (shift k (k (k 3))))))) (t)", "OK I13 ;; OUT "),
     ("(define (t) (reset (+ 1 (shift k 10)))) (t)", "OK I10 ;; OUT "),
@@ -742,8 +766,8 @@ def run(ck):
     nested_run_contexts(ck)
     # delimited control: engine against hand-computed answers
     for label, env in JIT_ENVS:
-        res = ck.eval_cases([[src] for src, _ in DELIM], fresh=True, env=env)
-        for (src, want), r in zip(DELIM, res):
+        res = ck.eval_cases([[src] for src, _ in DELIM + WIND_AFTER], fresh=True, env=env, batch=4, timeout_per_batch=60)
+        for (src, want), r in zip(DELIM + WIND_AFTER, res):
             ck.cov["evaluations"] += 1
             got = engine_render(r)
             if got != want:
